@@ -216,8 +216,9 @@ Proof. vm_compute. repeat split; reflexivity. Qed.
              ([used]) — provided the Sorted flag is only set on ascending data; NaN for the empty sample; weighted
              Variance / StdDev panic; nothing was modified.  GeoMean (slice function): NaN exactly for the empty sample or
              a value <= 0, else positive with |g^n - prod xs| <= geo_rel n * prod xs when n <= 64 (geo_ok).
-     kind 1  hist_ok: every dump equals the model store, every query satisfies query_obs_ok (same predicates as
-             above) for the queried sample — stated relative to the model store h_step (see meta: partial).
+     kind 1  hist_ok: every dump equals the model store, every queried sample is a legal Sample (swf) and the query
+             satisfies query_obs_ok (same predicates as above) for it — stated relative to the model store h_step
+             (see meta: partial).
      kind 2  vec_ok: Linspace element-wise within tol_lin of lo + i (hi - lo)/(num - 1); Sum within tol_sum of Qsum;
              Map / Vectorize / Concat element-wise equal to map f xs / concat xss, inputs unmodified.
    The Welford loops / folds of Model/Sample.v do not occur in stats_ok, query_obs_ok, lin_ok. *)
@@ -242,10 +243,22 @@ Theorem C09_compare_query_sound : forall s mst m sm w b1 b2 vst v,
 Proof. exact query_ok_sound. Qed.
 Print Assumptions C09_compare_query_sound.
 
-Theorem C09_compare_history_sound : forall ops st idx tag tag' pos diag,
+Theorem C09_compare_history_sound : forall ops st idx tag tag' pos diag, Forall swf st ->
   run_hist st ops idx tag = (0%Z, tag', pos, diag) -> hist_ok st ops.
 Proof. exact run_hist_sound. Qed.
 Print Assumptions C09_compare_history_sound.
+
+(* every queried sample is a legal Sample (swf: one non-negative weight per value, Sorted only on ascending data — an
+   invariant of the store along an accepted run), which discharges the premises of the weighted-Mean and Bounds clauses *)
+Theorem C09_compare_query_closed : forall s mst m sm w b1 b2 vst v, swf s -> query_obs_ok s mst m sm w b1 b2 vst v ->
+  match s_ws s with
+  | Some ws => (s_xs s <> [] -> (exists w0, In w0 ws /\ ~ w0 == 0) ->
+                  mst = 0%Z /\ obs_near (tol_wmean (s_xs s)) (wmean_def (combine (s_xs s) ws)) m) /\
+               bounds_ok (used (combine (s_xs s) ws)) b1 b2
+  | None => bounds_ok (s_xs s) b1 b2
+  end.
+Proof. exact query_closed. Qed.
+Print Assumptions C09_compare_query_closed.
 
 (* GeoMean of at most 64 unweighted values (tag bit 32): exp / ln are never evaluated — the observed g is positive and
    its n-th power is within the relative tolerance geo_rel n = 64 n (n + 8) 2^-52 of the product of the values *)
